@@ -1459,6 +1459,219 @@ theorem hoisted_save_dict_counterexample :
     (runSaveCall st2 0 [] [("count", .cst 7)]).2.ctx.get? "draft" = Option.none ∧
     (runSaveCall st2 0 [] [("count", .cst 7)]).2.ctx.get? "notes" = some (.cst 1) := by decide +kernel
 
+/-! ### 11. `save(k=v)` binds THE OBJECT it was given — identity and type, whatever the key held before
+
+  `context.update(d)` stores references: after a `save` call that returns, every key it was given holds the
+  very `V` passed (for `.ref r` the same heap object — not a copy, not the equal object the key held before;
+  values of another type that compare equal in Python are different `V`s).  No hypothesis on the previous
+  binding of the key: absent, identical, equal-but-distinct, unequal — all the same.  Hence an in-place
+  change of the saved object AFTER the save shows through the context key, and one of the object the key held
+  before does not. -/
+
+/-- `dosave_binds_the_very_object`: `context.update(d)` — a key reads the LAST binding `d` has for it
+    (`d` is a dict: built by `Env.set`, one binding per key), for every context before. -/
+theorem dosave_binds_the_very_object (st : St) (d : Env) (k : String) (v : V)
+    (h : Env.get? d.reverse k = some v) : (doSave st d).ctx.get? k = some v := by
+  simp only [doSave]
+  rw [Env.get?_update, h]; rfl
+
+/-- `Env.update` from any start: the last binding of the update list wins. -/
+theorem update_binds_last (c kvs : Env) (k : String) (v : V) (h : Env.get? kvs.reverse k = some v) :
+    Env.get? (c.update kvs) k = some v := by
+  rw [Env.get?_update, h]; rfl
+
+/-- an `Env` with one binding per key reads the same from either end. -/
+theorem get?_reverse_of_nodup (c : Env) (k : String) (h : (Env.keys c).Nodup) :
+    Env.get? c.reverse k = Env.get? c k := by
+  induction c with
+  | nil => rfl
+  | cons p rest ih =>
+    obtain ⟨k', v'⟩ := p
+    simp only [Env.keys, List.map_cons, List.nodup_cons] at h
+    rw [List.reverse_cons, Env.get?_append, ih h.2]
+    simp only [Env.get?_cons, Env.get?_nil]
+    by_cases hk : k' = k
+    · subst hk
+      have : Env.get? rest k' = Option.none := (Env.get?_eq_none_iff rest k').2 h.1
+      simp [this, orElse]
+    · simp only [if_neg hk]
+      cases hr : Env.get? rest k <;> rfl
+
+theorem nodup_keys_set (c : Env) (k : String) (v : V) (h : (Env.keys c).Nodup) : (Env.keys (c.set k v)).Nodup := by
+  rw [Env.keys_set]
+  split
+  · exact h
+  · rename_i hk
+    exact List.nodup_append.2 ⟨h, by simp, by intro a ha b hb; simp at hb; subst hb; intro hab; subst hab; exact hk ha⟩
+
+theorem nodup_keys_update (c kvs : Env) (h : (Env.keys c).Nodup) : (Env.keys (c.update kvs)).Nodup := by
+  induction kvs generalizing c with
+  | nil => exact h
+  | cons p rest ih => rw [Env.update_cons]; exact ih _ (nodup_keys_set c p.1 p.2 h)
+
+theorem saveNames_nodup (ns : Env) (names : List String) (d0 d : Env) (h : saveNames ns names d0 = some d)
+    (h0 : (Env.keys d0).Nodup) : (Env.keys d).Nodup := by
+  induction names generalizing d0 with
+  | nil => simp only [saveNames, Option.some.injEq] at h; subst h; exact h0
+  | cons n rest ih =>
+    simp only [saveNames] at h
+    split at h
+    · exact ih _ h (nodup_keys_set d0 n _ h0)
+    · cases h
+
+/-- every name handed to `save` positionally ends up in the dict it builds. -/
+theorem saveNames_mem (ns : Env) (names : List String) (d0 d : Env) (h : saveNames ns names d0 = some d)
+    (x : String) (hx : x ∈ Env.keys d0 ∨ x ∈ names) : x ∈ Env.keys d := by
+  induction names generalizing d0 with
+  | nil =>
+    simp only [saveNames, Option.some.injEq] at h; subst h
+    rcases hx with hx | hx
+    · exact hx
+    · cases hx
+  | cons n rest ih =>
+    simp only [saveNames] at h
+    split at h
+    · rename_i v hv
+      apply ih _ h
+      rcases hx with hx | hx
+      · exact Or.inl ((Env.mem_keys_set d0 n x v).2 (Or.inl hx))
+      · rcases List.mem_cons.1 hx with hx | hx
+        · exact Or.inl ((Env.mem_keys_set d0 n x v).2 (Or.inr hx))
+        · exact Or.inr hx
+    · cases h
+
+/-- `savecall_binds_the_very_object`: after a `save(*names, **kvs)` call that returns — whatever each key held
+    before the call (nothing, the identical object, an equal but distinct one, something else) —
+    (1) every keyword key holds THE value passed for it (the last one, were a key given twice), and
+    (2) every positional name that is not also a keyword holds THE object the block's namespace binds to it. -/
+theorem savecall_binds_the_very_object (st st' : St) (k : Nat) (names : List String) (kvs : Env)
+    (h : runSaveCall st k names kvs = (.ok (), st')) :
+    (∀ x v, Env.get? kvs.reverse x = some v → st'.ctx.get? x = some v) ∧
+    (∀ x, x ∈ names → x ∉ Env.keys kvs →
+      ∃ r v, nsGet st.nss k = some r ∧ r.own.get? x = some v ∧ st'.ctx.get? x = some v) := by
+  unfold runSaveCall at h
+  split at h
+  · rename_i r hr
+    split at h
+    · split at h
+      · rename_i d hd
+        simp only [Prod.mk.injEq, true_and] at h
+        subst h
+        have hnd : (Env.keys (d.update kvs)).Nodup :=
+          nodup_keys_update d kvs (saveNames_nodup _ _ _ _ hd (by simp [Env.keys]))
+        constructor
+        · intro x v hx
+          apply dosave_binds_the_very_object
+          rw [get?_reverse_of_nodup _ _ hnd]
+          exact update_binds_last d kvs x v hx
+        · intro x hx hnk
+          have hmem : x ∈ Env.keys d := saveNames_mem _ _ _ _ hd x (Or.inr hx)
+          cases hv : Env.get? d x with
+          | none => exact absurd hmem ((Env.get?_eq_none_iff d x).1 hv)
+          | some v =>
+            refine ⟨r, v, hr, ?_, ?_⟩
+            · rcases saveNames_values _ _ _ _ hd x v hv with h1 | h1
+              · simp [Env.get?] at h1
+              · exact h1
+            · apply dosave_binds_the_very_object
+              rw [get?_reverse_of_nodup _ _ hnd, Env.get?_update_of_not_mem d kvs x hnk]
+              exact hv
+      · simp at h
+    · simp at h
+  · simp at h
+
+/-- the hypotheses are satisfiable: a block's namespace binds `t` to a FRESH list equal to the one context
+    key `L` holds; `save('t', L=<that list>)` — `L` then holds the fresh object `.ref 2`, not `.ref 1`. -/
+def exSaveSt : St :=
+  { exSt with heap := exSt.heap ++ [.list [.cst 7]]
+              nss := [(0, { arr := .exec, own := [("t", .ref 2), ("L", .ref 1)], stale := false })]
+              next := 1 }
+
+example : ∃ st', runSaveCall exSaveSt 0 ["t"] [("L", .ref 2)] = (.ok (), st') ∧
+    exSaveSt.ctx.get? "L" = some (.ref 1) ∧ pyEqV exSaveSt.heap (.ref 1) (.ref 2) = true ∧
+    st'.ctx.get? "L" = some (.ref 2) ∧ st'.ctx.get? "t" = some (.ref 2) :=
+  ⟨_, rfl, by decide +kernel, by decide +kernel, by decide +kernel, by decide +kernel⟩
+
+/-- `save_stmt_binds_the_very_object`: the statement `save(*names, **kws)` inside a py block: every keyword key
+    holds afterwards the very value its expression evaluated to (`evalKws` result, last wins) — for every
+    state, every previous binding of the key. -/
+theorem save_stmt_binds_the_very_object (fuel : Nat) (sc : Scope) (st st' : St) (names : List String)
+    (kws : List (String × Expr)) (h : execStmt .exec fuel sc (.save names kws) st = (.ok (), st')) :
+    ∃ kvs st1, evalKws .exec fuel sc kws st = (.ok kvs, st1) ∧
+      (∀ x v, Env.get? kvs.reverse x = some v → st'.ctx.get? x = some v) ∧
+      (∀ x, x ∈ names → x ∉ Env.keys kvs → ∃ v, st1.own.get? x = some v ∧ st'.ctx.get? x = some v) := by
+  simp only [execStmt] at h
+  split at h
+  · cases h
+  · split at h
+    · cases h
+    · split at h
+      · cases h
+      · rename_i kvs st1 hk
+        split at h
+        · cases h
+        · rename_i d hd
+          simp only [Prod.mk.injEq, true_and] at h
+          subst h
+          have hnd : (Env.keys (d.update kvs)).Nodup :=
+            nodup_keys_update d kvs (saveNames_nodup _ _ _ _ hd (by simp [Env.keys]))
+          refine ⟨kvs, st1, hk, ?_, ?_⟩
+          · intro x v hx
+            apply dosave_binds_the_very_object
+            rw [get?_reverse_of_nodup _ _ hnd]
+            exact update_binds_last d kvs x v hx
+          · intro x hx hnk
+            have hmem : x ∈ Env.keys d := saveNames_mem _ _ _ _ hd x (Or.inr hx)
+            cases hv : Env.get? d x with
+            | none => exact absurd hmem ((Env.get?_eq_none_iff d x).1 hv)
+            | some v =>
+              refine ⟨v, ?_, ?_⟩
+              · rcases saveNames_values _ _ _ _ hd x v hv with h1 | h1
+                · simp [Env.get?] at h1
+                · exact h1
+              · apply dosave_binds_the_very_object
+                rw [get?_reverse_of_nodup _ _ hnd, Env.get?_update_of_not_mem d kvs x hnk]
+                exact hv
+
+/-- `saved_object_mutation_visible`: once a key holds the saved list object, appending to THAT object shows
+    through the key; appending to another object `r'` (the equal list the key held before the save) does not
+    change what the key reads. -/
+theorem saved_object_mutation_visible (st : St) (k : String) (r r' : Nat) (xs ys : List V) (w : V)
+    (hk : st.ctx.get? k = some (.ref r)) (hr : st.heap[r]? = some (.list xs))
+    (hne : r' ≠ r) (hr' : st.heap[r']? = some (.list ys)) :
+    (doAppend st (.ref r) w).ctx.get? k = some (.ref r) ∧
+    seqItems (doAppend st (.ref r) w).heap (.ref r) = some (xs ++ [w]) ∧
+    (doAppend st (.ref r') w).ctx.get? k = some (.ref r) ∧
+    seqItems (doAppend st (.ref r') w).heap (.ref r) = some xs := by
+  obtain ⟨_, h2, _, h4⟩ := inplace_visible st k r xs w hk hr
+  refine ⟨h2, h4, ?_, ?_⟩
+  · simp [doAppend, hr', St.heapSet, hk]
+  · have : (doAppend st (.ref r') w).heap[r]? = some (.list xs) := by
+      simp only [doAppend, hr', St.heapSet]
+      rw [List.getElem?_set_ne hne]; exact hr
+    simp only [seqItems, this]
+
+/-- `changed_only_save_skips_equal`: the COUNTER-MODEL ("write only the keys that changed", `eq` any reading
+    of `==`): a key whose current value is `eq` to the value passed keeps its CURRENT value — for a distinct
+    `v` the explicit save is not carried out. -/
+theorem changed_only_save_skips_equal (eq : V → V → Bool) (st : St) (k : String) (w v : V)
+    (hk : st.ctx.get? k = some w) (he : eq w v = true) :
+    (doSaveChanged eq st [(k, v)]).ctx.get? k = some w ∧ (doSave st [(k, v)]).ctx.get? k = some v := by
+  constructor
+  · simp [doSaveChanged, doSave, List.filter, hk, he, Env.update_nil]
+  · exact dosave_binds_the_very_object st [(k, v)] k v (by simp [Env.get?])
+
+/-- `changed_only_save_counterexample`: context key `L` holds list object 1 = `[7]`; the block saves the
+    fresh equal list object 2 for `L` and appends to it.  As the code is, `L` then reads `[7, 9]`; with the
+    "only changed keys" save it still holds object 1 and reads `[7]`. -/
+theorem changed_only_save_counterexample :
+    let st1 := doSave exSaveSt [("L", .ref 2)]
+    let st2 := doSaveChanged (pyEqV exSaveSt.heap) exSaveSt [("L", .ref 2)]
+    st1.ctx.get? "L" = some (.ref 2) ∧ st2.ctx.get? "L" = some (.ref 1) ∧
+    (st1.ctx.get? "L").bind (seqItems (doAppend st1 (.ref 2) (.cst 9)).heap) = some [.cst 7, .cst 9] ∧
+    (st2.ctx.get? "L").bind (seqItems (doAppend st2 (.ref 2) (.cst 9)).heap) = some [.cst 7] := by
+  decide +kernel
+
 end Pypyr.C14
 
 /- A second block of the same namespace: `Pypyr.PyNs` is not open here (its `Stmt` / `Err` would be
